@@ -553,3 +553,108 @@ Proof.
   - apply H; auto. eapply nth_error_In; eauto.
   - apply H; auto. eapply nth_error_In; eauto.
 Qed.
+
+(* ---------- the JSON form (jget / jput) ---------- *)
+
+Lemma zrepeat_S x n : 0 <= n -> zrepeat x (1 + n) = x :: zrepeat x n.
+Proof.
+  intros H. unfold zrepeat. replace (Z.to_nat (1 + n)) with (S (Z.to_nat n)) by lia. reflexivity.
+Qed.
+
+Lemma zlen_trim0_le v : zlen (trim0 v) <= zlen v.
+Proof.
+  induction v as [|x r IH]; [cbn; lia|].
+  cbn [trim0]. destruct (trim0 r) as [|y t] eqn:E.
+  - destruct (x =? 0); rewrite ?zlen_cons, ?zlen_nil; pose proof (zlen_nonneg r); lia.
+  - rewrite !zlen_cons in *. lia.
+Qed.
+
+Lemma trim0_pad v : trim0 v ++ zrepeat 0 (zlen v - zlen (trim0 v)) = v.
+Proof.
+  induction v as [|x r IH]; [reflexivity|].
+  pose proof (zlen_trim0_le r) as Hle. pose proof (zlen_nonneg r) as Hr.
+  cbn [trim0]. destruct (trim0 r) as [|y t] eqn:E.
+  - change (zlen (@nil Z)) with 0 in *. replace (zlen r - 0) with (zlen r) in IH by lia. cbn [app] in IH.
+    destruct (x =? 0) eqn:X.
+    + apply Z.eqb_eq in X. subst x. rewrite zlen_cons. change (zlen (@nil Z)) with 0.
+      replace (1 + zlen r - 0) with (1 + zlen r) by lia. cbn [app].
+      rewrite zrepeat_S by lia. rewrite IH. reflexivity.
+    + rewrite !zlen_cons. change (zlen (@nil Z)) with 0. replace (1 + zlen r - (1 + 0)) with (zlen r) by lia.
+      cbn [app]. rewrite IH. reflexivity.
+  - rewrite !zlen_cons in *. replace (1 + zlen r - (1 + (1 + zlen t))) with (zlen r - (1 + zlen t)) by lia.
+    cbn [app] in *. rewrite IH. reflexivity.
+Qed.
+
+Lemma ascii_trim0 v : ascii v = true -> ascii (trim0 v) = true.
+Proof.
+  unfold ascii. induction v as [|x r IH]; [reflexivity|].
+  cbn [forallb trim0]. intros H. apply andb_true_iff in H as [Hx Hr]. specialize (IH Hr).
+  destruct (trim0 r) as [|y t].
+  - destruct (x =? 0); [reflexivity|]. cbn [forallb]. rewrite Hx. reflexivity.
+  - cbn [forallb] in *. rewrite Hx. exact IH.
+Qed.
+
+Lemma json_name_id v : zlen v = 32 -> ascii v = true -> json_name v = Some (Ok v).
+Proof.
+  intros L A. unfold json_name. rewrite (ascii_trim0 v A). cbn [negb].
+  pose proof (zlen_trim0_le v) as Hle.
+  replace (32 <? zlen (trim0 v)) with false by lia.
+  rewrite <- L at 1. rewrite trim0_pad. reflexivity.
+Qed.
+
+Lemma json_areas_id l :
+  forallb (fun a => zlen (a_name a) =? 32) l = true -> forallb (fun a => ascii (a_name a)) l = true ->
+  json_areas l = Some (Ok l).
+Proof.
+  induction l as [|a r IH]; [reflexivity|].
+  cbn [forallb json_areas]. intros H1 H2.
+  apply andb_true_iff in H1 as [L Lr]. apply andb_true_iff in H2 as [A Ar].
+  rewrite json_name_id by (auto; lia). rewrite IH by auto. destruct a; reflexivity.
+Qed.
+
+(* jget followed by json.Unmarshal gives back the same map when the names are 7-bit *)
+Theorem json_map_id m : names32 m = true -> names_ascii m = true -> json_map m = Some (Ok m).
+Proof.
+  unfold names32, names_ascii, json_map. intros H1 H2.
+  apply andb_true_iff in H1 as [L Lr]. apply andb_true_iff in H2 as [A Ar].
+  rewrite json_name_id by (auto; lia). rewrite json_areas_id by auto.
+  destruct m as [[] ?]; reflexivity.
+Qed.
+
+(* a map that was read from an image has 32-byte names *)
+Lemma dec_areas_names32 n b l : dec_areas n b = Some l ->
+  forallb (fun a => zlen (a_name a) =? 32) l = true.
+Proof.
+  revert b l. induction n as [|k IH]; intros b l H; cbn [dec_areas] in H.
+  - injection H as <-. reflexivity.
+  - destruct (zlen b <? area_len) eqn:E; [discriminate|].
+    destruct (dec_areas k (zskipn area_len b)) as [r|] eqn:D; [|discriminate].
+    injection H as <-. cbn [forallb]. rewrite (IH _ _ D), andb_true_r.
+    unfold dec_area. cbn [a_name]. unfold area_len in *.
+    assert (Lf : zlen (zfirstn fmap_area_size b) = fmap_area_size).
+    { apply zlen_zfirstn. unfold fmap_area_size in *. lia. }
+    rewrite zlen_sub; unfold fmap_area_size in *; lia.
+Qed.
+
+Lemma read_names32 img m start : read img = Ok (m, start) -> names32 m = true.
+Proof.
+  intros R. destruct (read_ok_inv _ _ _ R) as (P & V & D & _).
+  unfold names32. rewrite (dec_areas_names32 _ _ _ D), andb_true_r.
+  unfold valid_here in V.
+  destruct (prefixb fmap_signature (zskipn start img)); [|discriminate].
+  destruct (dec_header (zskipn start img)) as [h|] eqn:H; [|discriminate].
+  destruct (header_valid h); [|discriminate]. injection V as <-.
+  unfold dec_header in H. destruct (zlen (zskipn start img) <? hdr_len) eqn:E; [discriminate|].
+  injection H as <-. cbn [h_name].
+  rewrite zlen_sub; unfold hdr_len, fmap_header_size in *; lia.
+Qed.
+
+(* THE statement for the JSON path: jget then jput leaves the image unchanged *)
+Theorem json_roundtrip_id img m start :
+  bytes_ok img = true -> read img = Ok (m, start) -> names_ascii m = true ->
+  json_roundtrip img = Some (Ok img).
+Proof.
+  intros Ob R A. unfold json_roundtrip. rewrite R.
+  rewrite (json_map_id m (read_names32 _ _ _ R) A).
+  rewrite (read_write_id img m start Ob R). reflexivity.
+Qed.
